@@ -112,18 +112,6 @@ def r1(repo, res):
                found=f"writer stores `{ra}` ({ast.unparse(a)[:50]}), reader binds `{rb}`",
                clause="the same sample name, profile, depth tables, phases, fusion and indel support are restored",
                key=f"position:{i}:{ra}")
-    # the tables handed to the writer are the loader's results, in the loader's order
-    init = repo.func("sam::Sample.__init__")
-    res.analysed(init)
-    dc = find_calls(init, "_dump_alignments")
-    if dc:
-        params = [a.arg for a in wf.args.args[2:]]
-        args = [ast.unparse(a) for a in dc[0].args[1:]]
-        mk = find_calls(init, "_make_coverage")
-        margs = [ast.unparse(a) for a in mk[0].args] if mk else []
-        res.ob("C17.R1", init, dc[0], params == args == margs,
-               expected="the writer receives the same (reference table, variant table) pair, in the same order, as _make_coverage",
-               found=f"writer params {params}, dump call args {args}, _make_coverage args {margs}", key="table-argument-order")
     rets = [n for n in walk_local(rf) if isinstance(n, ast.Return) and isinstance(n.value, ast.Tuple)]
     if rets:
         got = [rrole(ast.unparse(e)) for e in rets[-1].value.elts]
